@@ -5,6 +5,7 @@
 
 mod abs;
 mod flat;
+mod lex;
 
 use std::collections::BTreeMap;
 use std::io::{BufRead, Write};
@@ -77,10 +78,13 @@ fn build_factors(fac: &Value) -> Outcome<Factors> {
         "str" | "raw" => {
             let text = match fac["text"].as_str() {
                 Some(t) => t.to_string(),
-                None => fac["lines"]
-                    .as_array()
-                    .map(|a| a.iter().map(render_factor).collect::<Vec<_>>().join("\n"))
-                    .unwrap_or_default(),
+                None => {
+                    let cm = fac["comment"].as_str().map(|c| format!(" # {}", c)).unwrap_or_default();
+                    fac["lines"]
+                        .as_array()
+                        .map(|a| a.iter().map(|f| format!("{}{}", render_factor(f), cm)).collect::<Vec<_>>().join("\n"))
+                        .unwrap_or_default()
+                }
             };
             if mode == "str" {
                 guarded(|| cte::wfactors_from_str(&text, user, cte::CTE_USERWF))
@@ -354,7 +358,11 @@ fn run_case1(case: &Value, out: &mut dyn Write, forced: Option<(i32, i32, f64)>)
         render_file(&case["src"])
     } else if let Some(comps) = case["src"]["comps"].as_array() {
         let cs: Vec<AbsComp> = comps.iter().map(AbsComp::from_json).collect();
-        render_comps(&cs, &[])
+        let meta: Vec<(String, String)> = case["meta"]
+            .as_array()
+            .map(|a| a.iter().map(|m| (m[0].as_str().unwrap_or("").to_string(), m[1].as_str().unwrap_or("").to_string())).collect())
+            .unwrap_or_default();
+        render_comps(&cs, &meta)
     } else if let Some(p) = case["src"]["file"].as_str() {
         std::fs::read_to_string(p).unwrap_or_default()
     } else {
@@ -564,6 +572,9 @@ fn run_case1(case: &Value, out: &mut dyn Write, forced: Option<(i32, i32, f64)>)
                     fk.sort();
                     ev["out"] = json!({"ok": true, "crs": crs, "srvs": srvs, "srcs": srcs, "acs": acs,
                                        "balkeys": balkeys, "m2keys": m2keys, "tkeys": tk, "fkeys": fk, "flat": f.m});
+                    if case.get("render").and_then(|x| x.as_bool()).unwrap_or(false) {
+                        ev["doc"] = render_docs(&ep, p, pm);
+                    }
                 }
             }
             Outcome::Err(k, m) => ev["out"] = fail("eval", k, &m),
@@ -573,6 +584,42 @@ fn run_case1(case: &Value, out: &mut dyn Write, forced: Option<(i32, i32, f64)>)
         }
     }
     Some((p, used_pm, s_case))
+}
+
+/// the three renderings of a result as token streams (harness/src/lex.rs), as the CLI produces them
+/// (the DHW indicator is incorporated first); the JSON document is read back and flattened again
+fn render_docs(ep: &EnergyPerformance, p: i32, pm: i32) -> Value {
+    use cteepbd::{AsCtePlain, AsCteXml};
+    let ep = match catch_unwind(AssertUnwindSafe(|| cte::incorpora_demanda_renovable_acs_nrb(ep.clone()))) {
+        Ok(e) => e,
+        Err(_) => return json!({"ok": false, "err": "Panic", "stage": "acs"}),
+    };
+    let mut doc = json!({"ok": true});
+    match catch_unwind(AssertUnwindSafe(|| ep.to_xml())) {
+        Ok(x) => doc["xml"] = Value::Array(lex::lex_xml(&x)),
+        Err(_) => return json!({"ok": false, "err": "Panic", "stage": "xml"}),
+    }
+    match catch_unwind(AssertUnwindSafe(|| ep.to_plain())) {
+        Ok(x) => doc["plain"] = Value::Array(lex::lex_plain(&x)),
+        Err(_) => return json!({"ok": false, "err": "Panic", "stage": "plain"}),
+    }
+    doc["misc"] = json!(ep.misc.as_ref().map(|m| {
+        let mut k: Vec<String> = m.keys().cloned().collect();
+        k.sort();
+        k
+    }).unwrap_or_default());
+    match serde_json::to_string(&ep) {
+        Ok(s) => match serde_json::from_str::<EnergyPerformance>(&s) {
+            Ok(ep2) => {
+                let f2 = flat::flat_ep_unit(&ep2, p, pm, 1.0);
+                doc["json"] = json!({"valid": true, "reread": true, "flat": f2.m,
+                                     "ncomps": ep2.components.data.len(), "nfac": ep2.wfactors.wdata.len()});
+            }
+            Err(e) => doc["json"] = json!({"valid": true, "reread": false, "err": e.to_string().chars().take(80).collect::<String>()}),
+        },
+        Err(e) => doc["json"] = json!({"valid": false, "err": e.to_string().chars().take(80).collect::<String>()}),
+    }
+    doc
 }
 
 /// bytes of a token-level file (spec/Faults.tla): fields joined by ",", lines by newline;
@@ -586,7 +633,8 @@ fn fault_bytes(lines: &Value) -> Vec<u8> {
                 out.push(b',');
             }
             first = false;
-            let t = f.as_str().unwrap_or("");
+            let t0 = f.as_str().unwrap_or("").replace("<NA>", "ñ€");
+            let t = t0.as_str();
             let mut rest = t;
             while let Some(i) = rest.find("<FF>") {
                 out.extend_from_slice(rest[..i].as_bytes());
@@ -713,6 +761,40 @@ fn main() {
                         std::process::exit(2);
                     }
                 }
+            }
+        }
+        "lexfiles" => {
+            // documents written by the real program: same lexers as for the library's renderings
+            for line in stdin.lock().lines() {
+                let line = match line {
+                    Ok(l) => l,
+                    Err(_) => break,
+                };
+                if line.trim().is_empty() {
+                    continue;
+                }
+                let c: Value = match serde_json::from_str(&line) {
+                    Ok(c) => c,
+                    Err(_) => continue,
+                };
+                let rd = |k: &str| c[k].as_str().and_then(|p| std::fs::read(p).ok()).map(|b| String::from_utf8_lossy(&b).to_string());
+                let mut ev = json!({"ev": "CliDocs", "case": c["case"], "tag": c["tag"], "exit": c["exit"]});
+                ev["xml"] = match rd("xml") {
+                    Some(x) => json!({"present": true, "toks": lex::lex_xml(&x)}),
+                    None => json!({"present": false}),
+                };
+                ev["plain"] = match rd("txt") {
+                    Some(x) => json!({"present": true, "entries": lex::lex_plain(&x)}),
+                    None => json!({"present": false}),
+                };
+                ev["json"] = match rd("json") {
+                    Some(x) => match serde_json::from_str::<EnergyPerformance>(&x) {
+                        Ok(_) => json!({"present": true, "reread": true}),
+                        Err(e) => json!({"present": true, "reread": false, "err": e.to_string().chars().take(80).collect::<String>()}),
+                    },
+                    None => json!({"present": false}),
+                };
+                writeln!(out, "{}", ev).ok();
             }
         }
         "fault" => {
